@@ -306,6 +306,12 @@ COMPARATOR_TO_OPERATOR = {
     ast.In: (_in, _not_in, None),
     ast.NotIn: (_not_in, _in, None),
 }
+_MIRRORED_COMPARATORS = {
+    ast.Lt: ast.Gt,
+    ast.LtE: ast.GtE,
+    ast.Gt: ast.Lt,
+    ast.GtE: ast.LtE,
+}
 _NEG_OPERATOR_TO_AST = {
     neg_op: node_cls for node_cls, (_, neg_op, _) in COMPARATOR_TO_OPERATOR.items()
 }
@@ -3589,8 +3595,9 @@ class NameCheckVisitor(node_visitor.ReplacingNodeVisitor):
         elif isinstance(rhs_constraint, PredicateProvider) and isinstance(
             lhs, KnownValue
         ):
+            # The provider is the right operand: `3 < len(x)` means `len(x) > 3`.
             constraint = self._constraint_from_predicate_provider(
-                rhs_constraint, lhs.val, op
+                rhs_constraint, lhs.val, _MIRRORED_COMPARATORS.get(type(op), type(op))()
             )
         elif isinstance(rhs, KnownValue):
             constraint = self._constraint_from_compare_op(
